@@ -333,6 +333,24 @@ def r5_names(ctx):
             for doms in flags.get(n, [set()]):
                 common = doms if common is None else (common & doms)
             r.check(n in flags and all(flags[n]), 'load|order|' + n, ld.file, ':%s is stored only while no regular field has been seen (pseudo fields after regular fields are malformed)' % n)
+        # the "malformed" and "way too large" verdicts: the two flags load() tests after decoding are only ever raised
+        # (stores of true) inside the closure, at no fewer sites than reviewed: 2 per pseudo field (order, repeat) + the
+        # connection-specific field arm + the TE arm = 14; one per size check = 7
+        tested = []
+        for bi, sw in core.all_switches(F, ld).items():
+            if sw is not None and sw.kind == 'bool' and sw.subject[0] == 'var':
+                tested.append(sw.subject[1])
+        import collections
+        stores = collections.Counter()
+        for c in cl:
+            for bi, si, pl, rv, ln in c.stmts():
+                if len(pl) > 1 and rv[0] == 'use' and core.op_const(rv[1]) is not None:
+                    fl = flag_of(c.expr_of_place(pl))
+                    if fl is not None:
+                        stores[(fl, core.op_const(rv[1])[0])] += 1
+        raised = sorted((stores.get((v, 1), 0), stores.get((v, 0), 0)) for v in set(tested))
+        r.check(len(raised) >= 2 and raised[-1][0] >= 14 and raised[-2][0] >= 7 and all(z == 0 for _, z in raised), 'load|verdict-flags', ld.file,
+                'the verdict flags tested after decoding are raised at (%s) sites and never lowered inside the closure (reviewed: 14 malformed, 7 way-too-large)' % ', '.join('%d' % a for a, z in raised))
         common = common or set()
         r.check(len(common) == 1, 'load|order|one-flag', ld.file, 'all six pseudo stores test the same flag (parent locals: %s)' % sorted(common))
         if len(common) == 1:
